@@ -11,6 +11,11 @@ package esdt
 //   lsumv(l,a,b) sum of fldlen(len(l[i])) for a <= i < b (repeated bytes fields)
 //   need(v)     size of an amount in the sign-and-magnitude format (data/zz_contracts_verif.go)
 // A message is assumed to be smaller than 2^30 bytes (the sizes are then computed without wrap-around).
+// Wire format as sequences (prelude): varenc(x) the varint of x, fld(tag, p) = tag byte, varint of the length,
+// payload; lcat(tag, l, a, b) the fields of the elements a <= j < b of a repeated bytes field. The varint
+// encoder and the role-list encoder are proved against them byte for byte (stepping stones: "loop N assert");
+// for the two larger messages only size, bounds and frame are proved and the bytes are cross-checked by the
+// bounded stand-in (the same proof for seven and five fields exceeds what the solvers do robustly).
 
 //@ def vfield(x) := ite(x != 0, 1 + varlen(x), 0)
 //@ def bfield(b) := ite(len(b) > 0, fldlen(len(b)), 0)
@@ -27,8 +32,11 @@ package esdt
 //@   view v0 = v
 //@   requires offset <= len(dAtA) && offset - varlen(v) >= 0
 //@   loop 0 invariant base == off0 - varlen(v0) && base <= offset && offset + varlen(v) == off0
+//@   loop 0 invariant bcat(seq(dAtA)[base:offset], varenc(v)) == varenc(v0)
+//@   loop 0 invariant forall(q, int, q < bufoff(dAtA) + base || bufoff(dAtA) + off0 <= q ==> rawat(dAtA, q) == old(rawat(dAtA, q)))
 //@   ensures[C14] r == offset - varlen(v)
-//@   modifies elems(dAtA)
+//@   ensures[C14,opt:wire] seq(dAtA)[r:offset] == varenc(v)
+//@   modifies elems(dAtA)[offset - varlen(v):offset]
 
 //@ func (m *ESDTRoles) Size
 //@   requires m != nil ==> szRoles(m) < msgBound()
@@ -48,12 +56,25 @@ package esdt
 //@   ensures[C14] m != nil ==> n == szTok(m)
 
 //@ func (m *ESDTRoles) MarshalToSizedBuffer
+//@   opt wire=on
 //@   results n, err
 //@   requires m != nil && szRoles(m) < msgBound() && len(dAtA) >= szRoles(m)
 //@   loop 0 invariant 0 - 1 <= iNdEx && iNdEx < len(m.Roles) && i == len(dAtA) - lsumv(list(m.Roles), iNdEx + 1, len(m.Roles))
 //@   loop 0 invariant iNdEx >= 0 ==> lsumv(list(m.Roles), iNdEx, len(m.Roles)) <= szRoles(m)
+//@   loop 0 invariant seq(dAtA)[i:len(dAtA)] == lcat(10, list(m.Roles), iNdEx + 1, len(m.Roles))
+//@   loop 0 invariant forall(q, int, q < bufoff(dAtA) + i || bufoff(dAtA) + len(dAtA) <= q ==> rawat(dAtA, q) == old(rawat(dAtA, q)))
+//@   loop 0 assert i == atHeader(i) - fldlen(len(m.Roles[iNdEx + 1])) && seq(dAtA)[atHeader(i):len(dAtA)] == atHeader(seq(dAtA))[atHeader(i):len(dAtA)]
+//@   loop 0 assert seq(dAtA)[atHeader(i) - len(m.Roles[iNdEx + 1]):atHeader(i)] == seq(m.Roles[iNdEx + 1])
+//@   loop 0 assert seq(dAtA)[i + 1:atHeader(i) - len(m.Roles[iNdEx + 1])] == varenc(len(m.Roles[iNdEx + 1]))
+//@   loop 0 assert seq(dAtA)[i:i + 1] == b1(10)
+//@   loop 0 assert lcat(10, list(m.Roles), iNdEx + 1, len(m.Roles)) == bcat(fld(10, seq(m.Roles[iNdEx + 1])), lcat(10, list(m.Roles), iNdEx + 2, len(m.Roles)))
+//@   loop 0 assert seq(dAtA)[i + 1:atHeader(i)] == bcat(seq(dAtA)[i + 1:atHeader(i) - len(m.Roles[iNdEx + 1])], seq(dAtA)[atHeader(i) - len(m.Roles[iNdEx + 1]):atHeader(i)])
+//@   loop 0 assert seq(dAtA)[i:atHeader(i)] == bcat(seq(dAtA)[i:i + 1], seq(dAtA)[i + 1:atHeader(i)])
+//@   loop 0 assert seq(dAtA)[i:len(dAtA)] == bcat(seq(dAtA)[i:atHeader(i)], seq(dAtA)[atHeader(i):len(dAtA)])
+//@   loop 0 assert seq(dAtA)[i:atHeader(i)] == fld(10, seq(m.Roles[iNdEx + 1]))
 //@   ensures[C14] err == nil && n == szRoles(m)
-//@   modifies elems(dAtA)
+//@   ensures[C14] seq(dAtA)[len(dAtA) - n:len(dAtA)] == lcat(10, list(m.Roles), 0, len(m.Roles))
+//@   modifies elems(dAtA)[len(dAtA) - szRoles(m):len(dAtA)]
 
 //@ func (m *MetaData) MarshalToSizedBuffer
 //@   results n, err
@@ -72,6 +93,7 @@ package esdt
 //@ func (m *ESDTRoles) Marshal
 //@   requires m != nil && szRoles(m) < msgBound()
 //@   ensures[C14] err == nil && len(dAtA) == szRoles(m)
+//@   ensures[C14] seq(dAtA) == lcat(10, list(m.Roles), 0, len(m.Roles))
 
 //@ func (m *MetaData) Marshal
 //@   requires m != nil && szMeta(m) < msgBound()
